@@ -335,7 +335,22 @@ def _t_nested_rec(rng, I):
             N([['r', ['rec', 1, 5, mx2]]])]
 
 
-TEMPLATES = {'retry_outside_reader': _t_retry_outside_reader, 'default_on_start': _t_default_on_start,
+def _t_unknown_label_in_candidate(rng, I):
+    # a switch inside the sub-pipeline of the first one-of candidate whose decider may answer with a label that has no case: the
+    # engine keeps SwitchCaseDoesNotHaveBranchError as the switch's result inside the one-of scope, the consumer of the switch (and an
+    # intermediate node between it and the candidate) must still become ready so that the candidate is abandoned for the fallback
+    lab = rng.choice(['L0', 'UNKNOWN', 'UNKNOWN'])
+    nodes = [N(), N([['a', I(0)]], beh=['str', lab]), N([['a', I(0)]]), N([['v', ['sw', 1, [['L0', 2]]]]])]
+    cand = 3
+    for _ in range(rng.choice([0, 1, 1, 2])):
+        nodes.append(N([['a', I(cand)]]))
+        cand = len(nodes) - 1
+    nodes.append(N([['a', I(0)]], fails=rng.choice([[], [], ['EB']])))
+    nodes.append(N([['w', ['oneof', [cand, len(nodes) - 1]]]]))
+    return nodes
+
+
+TEMPLATES = {'unknown_label_in_candidate': _t_unknown_label_in_candidate, 'retry_outside_reader': _t_retry_outside_reader, 'default_on_start': _t_default_on_start,
              'shared_case_in_flight': _t_shared_case_in_flight, 'shared_between_candidates': _t_shared_between_candidates,
              'nested_oneof': _t_nested_oneof, 'two_scopes_one_node': _t_two_scopes_one_node,
              'rec_two_consumers': _t_rec_two_consumers, 'candidate_two_deps': _t_candidate_two_deps,
